@@ -383,6 +383,10 @@ def fn_body(ins, perm, reqs=()):
         d.parent_op._extension_delta = list(reqs)
     inputs = d.inputs()
     d.set_outputs(*[inputs[i] for i in perm])
+    if ins:
+        # node metadata inside the body of a function value (part of the constant's payload)
+        d.hugr[d.hugr.root].metadata["fn.arity"] = [len(ins), len(perm)]
+        d.hugr[d.output_node].metadata["note"] = {"k": None, "é": "x"}
     return d.hugr
 
 
